@@ -136,6 +136,17 @@ PROPS = {
             "the dataflow inside Client::register that passes the same rk to the authenticator and to credProps",
         ],
     },
+    "C12": {
+        "units": ["ad"], "kani_complete": ["flags"], "kani_bounded_quick": [], "kani_bounded_thorough": ["ad_enc"],
+        "design_ref": "DESIGN.md section 5 / C12",
+        "not_covered": [
+            "ALL of decoding (AuthenticatorData::from_slice: the 37-byte guard, truncated sections, round trip): closures "
+            "capturing a &mut reader plus ciborium -- Verus rejects it and Kani is intractable even for the 37-byte header. "
+            "A little-endian counter in from_slice or a `< 36` guard is NOT detected",
+            "the attested-credential and extension sections of the encoding (ciborium / coset inside CBMC); credential ids near 65535 bytes in the encoder",
+            "header encoding (to_vec) only by the bounded Kani harness K-AD-ENC (thorough tier; sha256 stubbed)",
+        ],
+    },
     "C13": {
         "units": [], "kani_complete": ["status"], "kani_bounded_quick": [], "kani_bounded_thorough": [],
         "design_ref": "DESIGN.md section 5 / C13",
